@@ -78,11 +78,11 @@ theorem run_map_add (S : Store D B) (s : State D) (bs : List B) :
     simp only [List.map_cons, run_cons, List.foldl_cons]
     exact this
 
-/-- state reached by the train-and-freeze helpers when `initial_sample_cnt = 0` -/
-theorem run_helperOps_none (S : Store D B) (train : List B) :
-    run S (init S) (helperOps train none) =
+/-- state reached by the pre-fix helper sequence when `initial_sample_cnt = 0` -/
+theorem run_helperOpsConditional_none (S : Store D B) (train : List B) :
+    run S (init S) (helperOpsConditional train none) =
       ⟨S.empty, train.foldl S.add S.empty, true⟩ := by
-  unfold helperOps
+  unfold helperOpsConditional
   simp only [List.append_nil]
   rw [run_append]
   have h := run_map_add S (init S) train
